@@ -185,7 +185,7 @@ class Ctx:
                              "solver": "z3 " + z3.get_version_string()})
         if r == "unknown":
             self.inconclusive.append({"query": name, "reason": s.reason_unknown()})
-        elif r != expect:
+        elif expect is not None and r != expect:
             self.harness_error("twin %s expected %s got %s" % (name, expect, r))
         return r, (s.model() if r == "sat" else None)
 
